@@ -141,6 +141,24 @@ def cases(rng, tier, stats):
     lines = ["PARSE " + C.hx(b) for b in bad] + ["PARSE " + C.hx('দেখাও "আগে";\n' + b + '\nদেখাও "পরে";') for b in bad]
     out.append(C.Case("malformed-statements", lines, C.compare_status_class, total_oracle, info={"count": len(lines)}))
     stats["malformed_statements"] = len(lines)
+    # the parser loads modules: import graphs with cycles that do NOT pass through the root, long chains into a cycle, diamonds and
+    # repeated imports — parsing must end with a statement list or an error value (no stack overflow, no hang); files on disk, oracle
+    # of the C15 family (graph predicate)
+    from props import C15 as L
+    graphs = []
+    for k_ in (2, 3, 4):                                   # a chain from the root into a cycle of length k_
+        for lead in (1, 2):
+            n_ = lead + k_
+            edges = [(i, i + 1) for i in range(lead)] + [(lead + i, lead + (i + 1) % k_) for i in range(k_)]
+            graphs.append((n_, edges))
+            graphs.append((n_, edges + [(0, n_ - 1)]))                      # … plus a shortcut (diamond into the cycle)
+    graphs += [(4, [(0, 1), (0, 2), (1, 3), (2, 3)]), (5, [(0, 1), (0, 2), (1, 3), (2, 3), (3, 4), (0, 4)]),
+               (4, [(0, 1), (1, 2), (2, 3), (3, 1), (0, 3)]), (5, [(0, 1), (1, 2), (2, 3), (3, 4), (4, 2), (1, 4)])]
+    ng = 0
+    for (n_, edges) in graphs:
+        for desc in (False, True):
+            out.append(L.graph_case("parse-module-graph", n_, edges, desc)); ng += 1
+    stats["module_graphs"] = ng
     return out
 
 
@@ -153,3 +171,8 @@ def extra_checks(rng, tier, stats, root):
     if ans.startswith("abort"):
         return [("impl-vs-oracle", "C12-native-stack", f"an expression nested {depth} parentheses deep overflows the native stack: {ans[:60]}", {"depth": depth})]
     return []
+
+
+def fix_root(cases_, root):
+    for c in cases_:
+        c.lines = [l if not l.startswith("FILE ") else "FILE " + C.hx(C.unhx(l.split(" ")[1]).replace("@ROOT@", root)) + " " + l.split(" ")[2] for l in c.lines]
